@@ -1,5 +1,6 @@
 """C17 — Upwind.discretize: upstream cell selection, boundary matrices, conservative and
 bounded explicit transport step."""
+import math
 from fractions import Fraction
 
 import numpy as np
@@ -20,6 +21,18 @@ def cz(n):
 
 # bc codes per face
 NONE, DIR, NEU, ROB, BOTH = 0, 1, 2, 3, 4
+
+
+def flux_parts(case):
+    """Per face (mantissa, exponent): the flux is mantissa * 2**exponent, exact in binary64
+    and as a rational.  'scale' is a common exponent, 'fexp' optional per-face exponents."""
+    e = case.get("scale", 0)
+    fe = case.get("fexp") or [0] * len(case["flux"])
+    return [(int(m), int(e + x)) for m, x in zip(case["flux"], fe)]
+
+
+def flux_values(case):
+    return [Fraction(m) * Fraction(2) ** k for m, k in flux_parts(case)]
 
 
 def make_grid(spec):
@@ -169,7 +182,8 @@ class C17(Prop):
         "from the real incidence of generated grids and compares with the implementation.")
     level_note = (
         "Trusted: Coq kernel + vm_compute; harness (generator, literal emission, canonical "
-        "coordinate lists with explicit zeros dropped); integer fluxes stand for floats; NaN "
+        "coordinate lists with explicit zeros dropped); fluxes are dyadic m*2^k (exact in binary64), "
+        "the model sees the pair (m, k); NaN "
         "fluxes not modelled; the flux type enters the model only through sign(q)>=0, so the "
         "executed Z instance and the R instance of the theorems are the same polymorphic "
         "definition. The step theorems are stated for one component (C17_components reduces k "
@@ -184,14 +198,16 @@ class C17(Prop):
     rule = ("grids: PointGrid, CartGrid 1-3-D, TensorGrid with dyadic spacings 1-3-D, "
             "StructuredTriangleGrid, StructuredTetrahedralGrid (<= ~60 cells quick); fluxes: random "
             "integers with ~25% zeros, or exactly divergence-free integer cycle flows with zero "
-            "boundary flux; bc: random Dirichlet/Neumann per boundary face, all-Neumann, "
+            "boundary flux; in half of the cases the whole field is multiplied by an exact power of "
+            "two from 2^-80..2^40 (cycle flows stay divergence free), and a quarter of the random "
+            "fields mix magnitudes per face (2^-75..2^20 next to O(1)); bc: random Dirichlet/Neumann per boundary face, all-Neumann, "
             "all-Dirichlet, and a corner stream (Robin faces, unflagged boundary faces, faces "
             "flagged both ways, flags on interior faces) reaching the ValueError branch; 1-3 "
             "components; cycle-flow cases carry an explicit step (random cell values, dt = random "
             "fraction of the CFL limit). non-trivial = at least one non-zero flux on a grid with "
             ">= 2 cells")
-    trusted = ["integer-valued float fluxes (exact in binary64) stand for the flux array; "
-               "np.sign(q) >= 0 on finite floats = (0 <= sgn q) on integers",
+    trusted = ["fluxes m*2^k with small integer m (exact in binary64, built with math.ldexp) are passed "
+               "to the model as the pair (m, k); np.sign(q) >= 0 on finite floats = (0 <= sgn m)",
                "the incidence triples sps.find(g.cell_faces) of the real grid are passed to the "
                "model as data"]
     assumptions = ["finite (non-NaN) fluxes", "bc flags are boolean arrays of length num_faces"]
@@ -225,14 +241,25 @@ class C17(Prop):
                         bc[f] = rng.choice([DIR, NEU])
             k = rng.choice([1, 1, 1, 2, 3])
             case = {"grid": spec, "flux": q, "bc": bc, "ncomp": k, "mode": mode}
+            # magnitudes: a common exact power of two (keeps cycle flows divergence free),
+            # or, for random fields, a mix of tiny and O(1) faces within one field
+            rs = rng.random()
+            if rs < 0.35:
+                case["scale"] = rng.randint(-80, 40)
+            elif rs < 0.5:
+                case["scale"] = rng.choice([-80, -75, -70, -64, -60, -53, -52])
+            elif rs < 0.75 and mode == "random":
+                case["scale"] = rng.choice([0, 0, -10, 5])
+                case["fexp"] = [rng.choice([0, 0, 0, -70, -60, -75, -53, 20]) for _ in range(nf)]
             if mode == "cycles" and r < 0.85:
                 vol = [Fraction(float(v)) for v in g.cell_volumes]
                 cfl = None
+                qv = flux_values(case)
                 for c in range(nc):
                     out = 0
                     for f, cc, s in incidence(g):
-                        if cc == c and s * q[f] > 0:
-                            out += s * q[f]
+                        if cc == c and s * qv[f] > 0:
+                            out += s * qv[f]
                     if out > 0:
                         lim = vol[c] / out
                         cfl = lim if cfl is None else min(cfl, lim)
@@ -255,7 +282,8 @@ class C17(Prop):
         bc.is_neu = np.isin(code, [NEU, BOTH])
         bc.is_rob = code == ROB
         data = pp.initialize_data(g, {}, KW, {
-            "bc": bc, "darcy_flux": np.array(case["flux"], dtype=float),
+            "bc": bc, "darcy_flux": np.array([math.ldexp(float(m), k) for m, k in flux_parts(case)],
+                                             dtype=float),
             "num_components": case["ncomp"]})
         discr = pp.Upwind(KW)
         res = {"dim": int(g.dim), "nf": int(nf), "nc": int(nc), "cf": incidence(g),
@@ -276,7 +304,7 @@ class C17(Prop):
     # ------------------------------------------------------------------ oracle
     def oracle(self, case, res):
         nf, nc, k = res["nf"], res["nc"], case["ncomp"]
-        q, code = case["flux"], case["bc"]
+        q, code = flux_values(case), case["bc"]
         per_face = {f: [] for f in range(nf)}
         for f, c, s in res["cf"]:
             per_face[f].append((c, s))
@@ -299,17 +327,17 @@ class C17(Prop):
                 if q[f] != 0:
                     if code[f] == NEU or (code[f] == DIR and not ups):
                         if nz:
-                            return (f"face {f} (flux {q[f]}, bc code {code[f]}) is a Neumann / "
+                            return (f"face {f} (flux {float(q[f])!r}, bc code {code[f]}) is a Neumann / "
                                     f"Dirichlet-inflow face but selects {nz}")
                     else:
                         want = [(ups[0] * k + j, 1)]
                         if nz != want:
-                            return (f"face {f} flux {q[f]}: upwind row {r} has {nz}, the flux "
+                            return (f"face {f} flux {float(q[f])!r}: upwind row {r} has {nz}, the flux "
                                     f"leaves cell {ups[0]} (expected {want})")
                 dnz = [c for c in range(nf * k) if D[r, c] != 0]
                 nnz = [c for c in range(nf * k) if N[r, c] != 0]
                 if dnz and (dnz != [r] or code[f] != DIR or (q[f] != 0 and ups)):
-                    return f"Dirichlet boundary matrix row {r} (face {f}, code {code[f]}, flux {q[f]}): {dnz}"
+                    return f"Dirichlet boundary matrix row {r} (face {f}, code {code[f]}, flux {float(q[f])!r}): {dnz}"
                 if nnz and (nnz != [r] or code[f] != NEU):
                     return f"Neumann boundary matrix row {r} (face {f}, code {code[f]}): {nnz}"
         st = case.get("step")
@@ -319,7 +347,7 @@ class C17(Prop):
 
     def _step_oracle(self, case, res, U, per_face):
         nf, nc, k = res["nf"], res["nc"], case["ncomp"]
-        q = case["flux"]
+        q = flux_values(case)
         dt = Fraction(*case["step"]["dt"])
         c0 = [Fraction(x) for x in case["step"]["c"]]
         vol = [Fraction(a, b) for a, b in res["vol"]]
@@ -364,7 +392,7 @@ class C17(Prop):
         trip = lambda t: f"({cz(t[0])}, {cz(t[1])}, {cz(t[2])})"
         return ("(mk_input {} {} {} {} {} {} {} {})".format(
             cz(res["dim"]), cz(res["nf"]), cz(res["nc"]), clist(res["cf"], trip),
-            clist(case["flux"], cz),
+            clist(flux_parts(case), lambda mk: f"({cz(mk[0])}, {cz(mk[1])})"),
             clist([c in (DIR, BOTH) for c in code], cbool),
             clist([c in (NEU, BOTH) for c in code], cbool),
             cz(case["ncomp"])))
@@ -379,7 +407,7 @@ class C17(Prop):
         return f"agree {self._input(case, res)} {exp}"
 
     def coq_diag(self, case, res):
-        return f"discretize Z nonnegZ {self._input(case, res)}"
+        return f"discretize dyadic nonnegD {self._input(case, res)}"
 
     def nontrivial(self, case, res):
         return res["nc"] >= 2 and any(x != 0 for x in case["flux"])
